@@ -122,13 +122,12 @@ def load_known():
 def finish(ctx: Ctx, t0: float, level: str, seed: int, extra_cov=None, write=True) -> int:
     """Evaluate floors, match findings with the known list, write evidence, exit code."""
     # floors: a rule that matched fewer instances than confirmed by hand is broken
+    floor_err = None
     for rule, n_min in ctx.floors.items():
         got = ctx.instances.get(rule, 0)
-        if got < n_min:
-            raise AnalysisError(
-                f"rule {rule}: found {got} instance(s), floor is {n_min} "
-                "(anchor vanished or extractor no longer understands the idiom)"
-            )
+        if got < n_min and floor_err is None:
+            floor_err = (f"rule {rule}: found {got} instance(s), floor is {n_min} "
+                         "(anchor vanished or extractor no longer understands the idiom)")
     known = load_known()
     known_keys = {
         k["key"]: k for k in known.get("known", []) if k.get("property") == ctx.prop
@@ -149,6 +148,12 @@ def finish(ctx: Ctx, t0: float, level: str, seed: int, extra_cov=None, write=Tru
         print(f"NOTE: {n}")
     for o in unrec[:20]:
         print(f"UNRECOGNISED property={ctx.prop} rule={o.rule} {o.file}:{o.line} construct={o.construct} detail={o.detail} :: {o.msg}")
+    # a rule that lost instances makes the run undecided -- unless another obligation already carries positive evidence of a violation,
+    # which stands on its own
+    if floor_err and not new:
+        raise AnalysisError(floor_err)
+    if floor_err:
+        print(f"NOTE: {floor_err}")
     if unrec and not new:
         raise AnalysisError(f"{len(unrec)} obligation(s) could not be decided: the code at {unrec[0].construct} no longer has a shape the rule {unrec[0].rule} recognises "
                             f"({unrec[0].detail[:80]}); the rule needs re-confirmation against the new code")
